@@ -15,6 +15,7 @@
 #include "verif_hook.hpp"
 
 #include <tao/pegtl.hpp>
+#include <tao/pegtl/contrib/coverage.hpp>
 #include <tao/pegtl/contrib/input_with_depth.hpp>
 #include <tao/pegtl/contrib/integer.hpp>
 #include <tao/pegtl/contrib/limit_bytes.hpp>
@@ -634,6 +635,74 @@ namespace vh
             g_out += '\n';
          }
          char b[ 96 ];
+         std::snprintf( b, sizeof b, "O %d %zu %zu\n", g_oob != 0 ? 1 : 0, std::size_t( in.end() - in.begin() ), in.current_depth() );
+         g_out += b;
+      }
+      g_out += "END\n";
+      std::fwrite( g_out.data(), 1, g_out.size(), stdout );
+      delete[] buf;
+   }
+
+   // C08: the same case through coverage< Root, Action, Control >(): the logging control wrapped by state_control<> must see
+   // exactly what it sees in a plain parse, and the facility's own counters must balance for every rule and branch.
+   template< typename Tag,
+             typename Root,
+             template< typename... >
+             class Action,
+             template< typename... >
+             class Control,
+             pegtl::tracking_mode T,
+             typename Eol >
+   void run_case_cov( const char* case_id, const std::string& bytes, std::size_t ib, std::size_t il, std::size_t ic )
+   {
+      const std::size_t n = bytes.size();
+      char* buf = new char[ n ];
+      if( n != 0 ) {
+         std::memcpy( buf, bytes.data(), n );
+      }
+      names_ptr() = &names_for< Tag >();
+      messages_ptr() = &messages_for< Tag >();
+      g_out.clear();
+      g_steps = 0;
+      g_oob = 0;
+      g_out += "CASE ";
+      g_out += case_id;
+      g_out += '\n';
+      std::fwrite( g_out.data(), 1, g_out.size(), stdout );
+      std::fflush( stdout );
+      g_out.clear();
+      {
+         pegtl::input_with_depth< pegtl::memory_input< T, Eol, std::string > > in( buf, buf + n, "src", ib, il, ic );
+         pegtl::coverage_result result;
+         try {
+            const bool r = pegtl::coverage< Root, Action, Control >( in, result );
+            g_out += r ? "R 1" : "R 0";
+            emit_pos( in.position() );
+            g_out += '\n';
+         }
+         catch( ... ) {
+            g_out += "R 2";
+            emit_pos( in.position() );
+            g_out += ' ';
+            describe_exception( std::current_exception() );
+            g_out += '\n';
+         }
+         std::size_t bad = 0;
+         for( const auto& [ name, e ] : result ) {
+            if( e.start != e.success + e.failure + e.unwind ) {
+               ++bad;
+            }
+            for( const auto& [ bn, b ] : e.branches ) {
+               if( b.start != b.success + b.failure + b.unwind ) {
+                  ++bad;
+               }
+            }
+         }
+         char b[ 96 ];
+         if( bad != 0 ) {
+            std::snprintf( b, sizeof b, "covbad %zu\n", bad );   // an extra line: disagrees with every model trace
+            g_out += b;
+         }
          std::snprintf( b, sizeof b, "O %d %zu %zu\n", g_oob != 0 ? 1 : 0, std::size_t( in.end() - in.begin() ), in.current_depth() );
          g_out += b;
       }
